@@ -328,6 +328,23 @@ def run(chk):
             orders.append((f'shuffled-{k}', o))
         jobs += b3_file(chk, bench, f'seeded-{b}', {'path-request': reqs}, orders, cache)
     chk.cov['b3_batches'] = b3_judge(chk, jobs)
+    # ---- pipeline composition (spec/Gnpy.tla): stage-by-stage traces of real runs judged by Trace_Gnpy:
+    # only Design changes settings, only Assign changes occupancy, SimParams untouched, blocked requests hold nothing
+    from harness import pipeline
+    import copy as _copy
+    from gnpy.tools.json_io import network_from_json
+    rmc = tlc.run('MC_Gnpy', timeout=600, tag='gnpy-mc')
+    chk.add_mc('MC_Gnpy (pipeline composition, 3 requests)', rmc)
+    ptraces = []
+    for b in range(2 if chk.tier == 'quick' else 12):
+        bench = 'meshV2+island'
+        eqb = pu.bench_equipment(pu.BENCH_EQPT[bench])
+        reqs = pu.loadable(bench, pu.random_batch(rng, bench, f'p{b}-', 8))
+        ptraces.append(pipeline.record_run(f'pipeline-{b}', lambda: network_from_json(_copy.deepcopy(pu._topo(bench)), eqb),
+                                           eqb, {'path-request': reqs}))
+    nok = pipeline.judge(ptraces, chk)
+    chk.traces += nok
+    chk.cov['pipeline_traces'] = len(ptraces)
     chk.cov['tolerance_udB'] = 3
     chk.cov['measured_deviation_udB'] = 0
     chk.cov['rule'] = ('B2: one case per (bench, history) - non-trivial when the history has >= 2 requests; '
